@@ -250,3 +250,4 @@ MANIFEST = {
     'note': 'Trusted: the blocking-pair definition as transcribed in refmodel.Oracle.blocking_pairs.',
 }
 MANIFEST['text'] += (' ' + 'A quarter of the checker cases embed the instance under sparse two- and three-digit ids (all assignments of the real students still enumerated); a large kind draws assignments on instances with up to 14 x 14 x 13 agents; 15% of the cases first ask a sibling Model about the same assignments (no state may leak).')
+MANIFEST['text'] += (' ' + '30% of the checker cases ask a Model that has just been through a solve (any options, with or without -pc).')
